@@ -23,6 +23,8 @@ ASSUMPTIONS = [
     "ptrace is permitted (coverage.ptrace_permitted); data the kernel accepted and lost later, and fsync semantics, are outside",
     "which checks the tree performs (pinned / repaired by proposed_fixes/D2_output_errors.diff) is inferred from the runs: the "
     "model must agree with the binary on EVERY case under one of the two check vectors",
+    "files-processed: what a file gives when read (warnings when opened, embedded files, a stream that fails to decode) is known from how it was built and is "
+    "the input of the job model; the part also checks that the WARNING lines printed are the ones the files were built to give",
 ]
 
 SHIM = os.path.join(common.BUILD, "shim_fault.so")
@@ -138,6 +140,17 @@ def make_inputs(wd, rng, tier, nrandom):
     if rc != 0:
         raise common.InfraError("cannot prepare the attachment input with the binary under test", se.decode("latin-1")[-500:])
     inputs["att"] = {"path": ap, "warn": False, "att": True}
+    # the same file with a wrong startxref: a damaged file that HAS embedded files (a-damaged.pdf has none)
+    ad = open(ap, "rb").read()
+    if len(re.findall(rb"startxref\n\d+\n", ad)) != 1:
+        raise common.InfraError("the attachment input is not written with a classic xref table", ad[-200:].decode("latin-1"))
+    open(os.path.join(wd, "a-damaged-att.pdf"), "wb").write(re.sub(rb"startxref\n\d+\n", b"startxref\n7\n", ad))
+    # structurally intact, but the second page's content stream does not inflate: qpdf opens it silently and warns when
+    # (and only when) a writer decodes the stream (--qdf, --stream-data=uncompress)
+    dd = pdfgen.page_doc(2, marker="Q")
+    good = __import__("zlib").compress(b"BT /F1 12 Tf 72 720 Td (Q2) Tj ET\n" * 30)
+    dd.objects[6] = pdfgen.Stream({b"Filter": pdfgen.Name(b"FlateDecode")}, good[:20] + bytes([good[20] ^ 0xff, good[21] ^ 0x55]) + good[22:])
+    open(os.path.join(wd, "w-decode.pdf"), "wb").write(pdfgen.write_classic(dd)[0])
     return inputs
 
 
@@ -178,14 +191,27 @@ class Run:
     pass
 
 
-def run_binary(rundir, scen, inp, fault, keep=False, extra_args=()):
-    """fault: 'none' | 'full@k' | 'disk@k' | 'fail@k' | 'killb@k' | 'killa@k' | 'cap@L'"""
+DIRMARK = b"\x00<directory>"     # what Run.files holds for a name that is a directory
+
+
+def run_binary(rundir, scen, inp, fault, keep=False, extra_args=(), tail_args=(), pre=None):
+    """fault: 'none' | 'full@k' | 'disk@k' | 'fail@k' | 'killb@k' | 'killa@k' | 'cap@L'
+    tail_args: appended to the command line; pre: what the directory holds before the run besides the input
+    ({relative name: bytes, or None for a directory, or a list of names for a directory with those (empty) files})"""
     kind, mkargs = SCENARIOS[scen]
     shutil.rmtree(rundir, ignore_errors=True)
     os.makedirs(rundir)
     if kind == "R":
         shutil.copy(inp["path"], os.path.join(rundir, "outrep.pdf"))
-    argv = list(extra_args) + mkargs(inp["path"], ".")    # relative output names: the JSON output embeds them
+    for rel, content in (pre or {}).items():
+        if content is None or isinstance(content, list):
+            os.makedirs(os.path.join(rundir, rel))
+            for sub in content or []:
+                open(os.path.join(rundir, rel, sub), "wb").close()
+        else:
+            with open(os.path.join(rundir, rel), "wb") as f:
+                f.write(content)
+    argv = list(extra_args) + mkargs(inp["path"], ".") + list(tail_args)    # relative output names: the JSON output embeds them
     env = dict(os.environ)
     env.pop("QPDF_CRYPTO_PROVIDER", None)
     r_fd, w_fd = os.pipe()
@@ -240,6 +266,9 @@ def run_binary(rundir, scen, inp, fault, keep=False, extra_args=()):
     res.files = {}
     for fn in os.listdir(rundir):
         if fn.startswith("out") and (fn != "out.stdout" or kind == "O"):     # (ptrace.log does not start with "out")
+            if os.path.isdir(os.path.join(rundir, fn)):
+                res.files[fn] = DIRMARK + ",".join(sorted(os.listdir(os.path.join(rundir, fn)))).encode()
+                continue
             with open(os.path.join(rundir, fn), "rb") as f:
                 res.files["<stdout>" if fn == "out.stdout" else fn] = f.read()
     res.argv = ["qpdf"] + [os.path.basename(a) if a == inp["path"] else a for a in argv]
@@ -712,6 +741,168 @@ def report(chk, runner, groups, variant, diffs, B, pid="C10", sigprefix="C10"):
     return nviol
 
 
+
+# ------------------------------------------------------------------ "the files it processed" (Sys/JobWarnModel.v)
+
+def files_processed_jobs(inputs):
+    """(name, argv, model descriptor) - descriptor: main late pages uo attach enc split decode wx0 in the spelling of
+    ocaml/h_sys.ml c10jexit; a file is two digits: warns-when-opened, has-embedded-files"""
+    p = inputs["small"]["path"]
+    F = {"00": c10sib(p, "z-clean.pdf"), "01": c10sib(p, "in-att.pdf"), "10": c10sib(p, "a-damaged.pdf"), "11": c10sib(p, "a-damaged-att.pdf")}
+    LATE = c10sib(p, "w-decode.pdf")
+    jobs = []
+
+    def job(name, main="00", late=False, pages=(), dot=True, uo=(), attach=(), enc=None, split=False, decode=False, wx0=False, uokind="--overlay"):
+        argv = ["--static-id"]
+        argv.append("--empty" if main is None else (LATE if late else F[main]))
+        if pages:
+            argv += ["--pages"] + (["."] if dot and main is not None else [])
+            for f in pages:
+                argv += [F[f], "1"]
+            argv.append("--")
+        for f in uo:
+            argv += [uokind, F[f], "--"]
+        for i, f in enumerate(attach):
+            argv += ["--copy-attachments-from", F[f], "--prefix=s%d-" % i, "--"]
+        if enc:
+            argv.append("--copy-encryption=" + F[enc])
+        if decode:
+            argv.append("--qdf")
+        if wx0:
+            argv.append("--warning-exit-0")
+        argv += ["--split-pages", "out-%d.pdf"] if split else ["out.pdf"]
+        desc = "%s %d %s %s %s %s %d %d %d" % ("-" if main is None else main, 1 if late else 0, ",".join(pages) or "-", ",".join(uo) or "-",
+                                              ",".join(attach) or "-", enc or "-", 1 if split else 0, 1 if decode else 0, 1 if wx0 else 0)
+        roles = []
+        if main is not None and main[0] == "1":
+            roles.append("main")
+        if late and decode:
+            roles.append("main(decode-failure)")
+        if any(f[0] == "1" for f in pages):
+            roles.append("pages")
+        if any(f[0] == "1" for f in uo):
+            roles.append(uokind[2:])
+        for f in attach:
+            if f[0] == "1":
+                r = "copy-attachments-from(%s)" % ("with-embedded-files" if f[1] == "1" else "no-embedded-files")
+                if r not in roles:
+                    roles.append(r)
+        if enc and enc[0] == "1":
+            roles.append("copy-encryption")
+        cls = "+".join((["split-pages"] if split else []) + (roles or ["all-clean"]))
+        jobs.append({"name": name, "argv": argv, "desc": desc, "class": cls, "wx0": wx0})
+
+    for split in (False, True):
+        sfx = "/split" if split else ""
+        job("all-clean" + sfx, split=split)
+        job("main" + sfx, main="10", split=split)
+        job("main-att" + sfx, main="11", split=split)
+        job("pages" + sfx, pages=("10",), split=split)
+        job("pages-only" + sfx, pages=("10",), dot=False, split=split)
+        job("pages-empty" + sfx, main=None, pages=("10", "00"), split=split)
+        job("pages-second" + sfx, pages=("00", "10"), split=split)
+        job("overlay" + sfx, uo=("10",), split=split)
+        job("underlay" + sfx, uo=("10",), uokind="--underlay", split=split)
+        job("attach-with" + sfx, attach=("11",), split=split)
+        job("attach-without" + sfx, attach=("10",), split=split)
+        job("enc" + sfx, enc="10", split=split)
+    # --copy-attachments-from: every position of a damaged source among clean ones, with and without embedded files
+    for srcs in (("01", "10"), ("10", "01"), ("01", "11"), ("11", "01"), ("10", "11"), ("11", "10"), ("00", "10"), ("10", "00"), ("10", "10"),
+                 ("01", "00"), ("00", "01"), ("01", "10", "01"), ("00", "10", "01")):
+        job("attach:" + "/".join(srcs), attach=srcs)
+    job("attach-without-on-att-main", main="01", attach=("10",))
+    job("attach-with-on-att-main", main="01", attach=("11",))
+    job("attach-clean-without", attach=("00",))
+    job("attach-clean-with", attach=("01",))
+    # several files in one role: the damaged one first, last, in the middle
+    for fs in (("00", "10"), ("10", "00"), ("00", "10", "00")):
+        job("overlay:" + "/".join(fs), uo=fs)
+        job("underlay:" + "/".join(fs), uo=fs, uokind="--underlay")
+        job("pages:" + "/".join(fs), pages=fs)
+        job("pages-empty:" + "/".join(fs), main=None, pages=fs)
+    # two roles, one damaged
+    job("pages+attach-without", pages=("00",), attach=("10",))
+    job("overlay+attach-without", uo=("00",), attach=("10",))
+    job("enc+attach-without", enc="00", attach=("10",))
+    job("pages-damaged+attach-clean", pages=("10",), attach=("01",))
+    job("enc-damaged+pages", pages=("00",), enc="10")
+    job("enc-clean", enc="00")
+    job("overlay-clean", uo=("00",))
+    job("pages-clean", pages=("00",))
+    # --warning-exit-0
+    for kw in ({"main": "10"}, {"pages": ("10",)}, {"uo": ("10",)}, {"attach": ("10",)}, {"attach": ("11",)}, {"enc": "10"}, {}):
+        job("wx0:" + (",".join(sorted(kw)) or "clean"), wx0=True, **kw)
+    # a stream that fails to decode: warnings only when the writer decodes
+    for split in (False, True):
+        for decode in (False, True):
+            job("decode-failure%s%s" % ("/split" if split else "", "/qdf" if decode else ""), late=True, split=split, decode=decode)
+    job("decode-failure/qdf/wx0", late=True, decode=True, wx0=True)
+    job("decode-failure/qdf+attach-without", late=True, decode=True, attach=("10",))
+    # the same file in the other roles: where such warnings are recorded is not modelled; the clause on the run is judged all the same
+    for name, args in (("pages", [F["00"], "--pages", LATE, "1-z", "--"]), ("pages-self-and", [F["00"], "--pages", ".", LATE, "1-z", "--"]),
+                       ("pages-empty", ["--empty", "--pages", LATE, "1-z", "--"]), ("overlay", [F["00"], "--overlay", LATE, "--from=2", "--"]),
+                       ("underlay", [F["00"], "--underlay", LATE, "--from=2", "--"])):
+        for split in (False, True):
+            jobs.append({"name": "decode-failure-in-%s%s/qdf" % (name, "/split" if split else ""),
+                         "argv": ["--static-id"] + args + ["--qdf"] + (["--split-pages", "out-%d.pdf"] if split else ["out.pdf"]),
+                         "desc": None, "class": ("split-pages+" if split else "") + name.split("-")[0] + "(decode-failure)", "wx0": False})
+    return jobs
+
+
+def c10sib(i, name):
+    return os.path.join(os.path.dirname(i), name)
+
+
+def files_processed_part(chk, runner, wd, inputs):
+    """C10, first sentence, over the roles a file can have in a job: WARNING lines are never followed by exit status 0; the
+    exit status equals the extracted model's and the extracted role-free specification's"""
+    jobs = files_processed_jobs(inputs)
+
+    def one(j):
+        rd = os.path.join(wd, "fp-%d" % j)
+        os.makedirs(rd)
+        rc, so, se = common.run_qpdf(jobs[j]["argv"], cwd=rd)
+        outs = sorted(os.listdir(rd))
+        shutil.rmtree(rd, ignore_errors=True)
+        return rc, se, outs
+    impl = common.par_map(one, range(len(jobs)), workers=WORKERS)
+    mout = iter(common.run_lines(runner, ["c10jexit " + j["desc"] for j in jobs if j["desc"]]))
+    mout = [next(mout) if j["desc"] else None for j in jobs]
+    slines = ["c10jobs %d %d %d" % (rc if rc >= 0 else 255, 1 if b"WARNING: " in se else 0, 1 if j["wx0"] else 0) for j, (rc, se, outs) in zip(jobs, impl)]
+    sout = common.run_lines(runner, slines)
+    nontriv, diffs, dist = set(), [], {}
+    for j, (rc, se, outs), mo, sv in zip(jobs, impl, mout, sout):
+        wl = b"WARNING: " in se
+        m_exit, s_exit, reported = (int(x) for x in mo.split(" ")) if mo else (rc, None, 1 if wl else 0)
+        argv = ["qpdf"] + [os.path.basename(a) if a.startswith(wd) else a.replace(wd + "/", "") for a in j["argv"]]
+        key = "%s/exit%d" % (j["class"], rc)
+        dist[key] = dist.get(key, 0) + 1
+        if wl or j["class"] != "all-clean":
+            nontriv.add(j["name"])
+        if sv != "ok":
+            sig = "C10:files-processed:%s:exit%d" % (j["class"], rc)
+            chk.violation({"kind": "property-fails-on-implementation", "part": "files-processed", "why": sv,
+                           "case": {"argv": argv, "job": j["name"], "files": "z-clean.pdf / in-att.pdf: intact (without / with an embedded file); a-damaged.pdf / a-damaged-att.pdf: "
+                                    "wrong startxref, qpdf reconstructs the xref table with warnings (without / with an embedded file); w-decode.pdf: a content stream that does not inflate"},
+                           "exit": rc, "stderr": se.decode("latin-1")[-600:], "warning_lines_on_stderr": wl, "outputs": outs,
+                           "exit_status_of_the_model": m_exit, "exit_status_of_the_specification": s_exit, "signature": sig,
+                           "replay": {"part": "files-processed", "job": j["name"]}}, signature=sig)
+            sigs = chk.cov.setdefault("specification_violations_by_signature", {})
+            sigs[sig] = sigs.get(sig, 0) + 1
+        if rc != m_exit or (1 if wl else 0) != reported:
+            diffs.append((j, argv, rc, wl, m_exit, reported))
+    if diffs:
+        j, argv, rc, wl, m_exit, reported = diffs[0]
+        chk.violation({"kind": "correspondence-broken", "correspondence": "corr:C10:files-processed", "differing_cases": len(diffs),
+                       "first_case": {"argv": argv, "job": j["name"], "model_arguments": j["desc"]},
+                       "implementation": {"exit": rc, "warning_lines": wl}, "model": {"exit": m_exit, "warning_reported": bool(reported)},
+                       "all": [d[0]["name"] for d in diffs][:20],
+                       "note": "the exit status of the binary differs from Sys/JobWarnModel.v c10j_exit (QPDFJob's warning accounting), or the files do not "
+                               "give the warnings they were built to give"}, no_input=True)
+    chk.count("files-processed", len(jobs), nontriv, [{"argv": ["qpdf"] + [os.path.basename(a) for a in jobs[k]["argv"]], "exit": impl[k][0]} for k in (3, len(jobs) // 2)])
+    chk.cov["parts"]["files-processed"]["distribution"] = dist
+    chk.cov["parts"]["files-processed"]["model_differences"] = len(diffs)
+
 def run_coqchk(chk, pid):
     """thorough tier: independent re-check of the compiled property file and its axiom list"""
     with common.Lock("coq"):
@@ -771,6 +962,8 @@ def run(chk):
         groups.append(run_group(chk, runner, wd, s, iname, inputs[iname], B, lim, kinds=kinds))
     variant, diffs, total = evaluate(chk, runner, groups, B)
     report(chk, runner, groups, variant, diffs, B)
+    # the first sentence of the property over every role a file can have in a job
+    files_processed_part(chk, runner, wd, inputs)
     # /dev/full as the output path, no interposition at all
     rc, so, se = common.run_qpdf(["--static-id", inputs["big"]["path"], "/dev/full"])
     if rc in (0, 3):
@@ -804,7 +997,10 @@ def run(chk):
                        "fail@k at every fopen/rename/unlink, disk@k (device stays full) on a sample, cap@L = RLIMIT_FSIZE sweep; each run is compared with the "
                        "extracted model on exit status, diagnostic classes, bytes of every output file and the complete sequence of stdio calls with results, and "
                        "the extracted specification c10_obs_ok is evaluated on the binary's run; non-trivial = a run in which at least one output call actually "
-                       "failed at kernel level, distinct by (scenario, input, fault)") % (limit or "all")
+                       "failed at kernel level, distinct by (scenario, input, fault). Part files-processed: 84 jobs without faults - a damaged file (wrong startxref) in "
+                       "every role (main, --pages, --overlay, --underlay, --copy-attachments-from with / without embedded files, --copy-encryption), first / last / between "
+                       "intact files, two roles at once, with --split-pages and --warning-exit-0, and a file with a stream that does not inflate (with / without --qdf, every role): "
+                       "exit status = extracted c10j_exit (Sys/JobWarnModel.v) where the job is in the model's domain, and the extracted c10j_obs_ok on every run") % (limit or "all")
     shutil.rmtree(wd, ignore_errors=True)
 
 
@@ -816,10 +1012,22 @@ def replay(chk, rep):
     build_shim()
     wd = common.workdir("C10-replay")
     inputs = make_inputs(wd, chk.rng, chk.tier, 0)
+    if r.get("part") == "files-processed":
+        j = [x for x in files_processed_jobs(inputs) if x["name"] == r["job"]][0]
+        rd = os.path.join(wd, "replay")
+        os.makedirs(rd)
+        rc, so, se = common.run_qpdf(j["argv"], cwd=rd)
+        print("argv", j["argv"], "\nexit", rc, "\nstderr", se.decode("latin-1")[-800:], "\noutputs", sorted(os.listdir(rd)))
+        return 0
     if r["input"] not in inputs:
         print("input %s is a random input of the thorough tier; rerun the tier with the same VERIF_SEED" % r["input"])
         return 0
-    res = run_binary(os.path.join(wd, "replay"), r["scenario"], inputs[r["input"]], r["fault"], keep=True)
-    print("exit", res.rc, "stderr", res.stderr.decode("latin-1")[-400:], "files", {k: len(v) for k, v in res.files.items()})
+    pre = None
+    if r.get("pre"):
+        orig = open(inputs[r["input"]]["path"], "rb").read()
+        pre = {n: (orig if v == "<same-as-input>" else (bytes.fromhex(v) if isinstance(v, str) else v)) for n, v in r["pre"].items()}
+    res = run_binary(os.path.join(wd, "replay"), r["scenario"], inputs[r["input"]], r["fault"], keep=True, tail_args=r.get("tail", ()), pre=pre)
+    print("argv", res.argv, "initial directory", {n: ("directory" if not isinstance(v, bytes) else "%d bytes md5 %s" % (len(v), md5(v))) for n, v in (pre or {}).items()})
+    print("exit", res.rc, "stderr", res.stderr.decode("latin-1")[-400:], "files", {k: ("directory" if v.startswith(DIRMARK) else "%d bytes md5 %s" % (len(v), md5(v))) for k, v in res.files.items()})
     print(res.log[-1500:])
     return 0
